@@ -10,6 +10,10 @@ def shape_ad_is_denial_secure : Bool := true
 def shape_aggressive_flag_from_evaluator : Bool := true
 def shape_mark_guarded_by_secure_cd_negative : Bool := true
 def shape_nsec3_aggressive_needs_secure : Bool := true
+def shape_prefetch_admission_guard : Bool := true
+def shape_prefetch_cut_needs_nxdomain : Bool := true
+def shape_rfc8020_stop_guard : Bool := true
 def shape_validator_error_returns_error : Bool := true
+def shape_writemsg_cut_needs_nxdomain : Bool := true
 
 end SdnsVerif.Gen.C02
